@@ -289,7 +289,7 @@ Proof. exact client_example_trace. Qed.
 
 (* ---- source-level tie of the daemon side of a retried decode (tools/facts/cfun.py -> gen/GenCredFun.v: TRANSLATED
         from the C text of dec.c on every run; CredPipe.v): what RetryModel.dec_attempt assumes of munged per attempt -
-        the record is rolled back iff the reply of a SUCCESSFUL decode could not be sent, whatever the retry count -
+        the record is rolled back iff the reply of a SUCCESSFUL decode THAT ADDED IT could not be sent (c->is_replay_new) -
         the retry limit and the retry exemption of the replay check ---- *)
 From MV Require Import CredFun CredPipe.
 From MV.gen Require Import GenCredFun.
@@ -306,7 +306,7 @@ Theorem C13_source_attempt_is_model :
 Proof. exact dec_attempt_is_source. Qed.
 Print Assumptions C13_source_attempt_is_model.
 Theorem C13_source_decode_control : forall (S : Type) (ops : pipe_ops S) (s : S),
-  src_dec_process_msg ops s = pipe_control ops dec_stage_order soft_err true s.
+  src_dec_process_msg ops s = pipe_control ops dec_stage_order soft_err (Some "is_replay_new"%string) s.
 Proof. exact src_dec_process_msg_is_pipe. Qed.
 Print Assumptions C13_source_decode_control.
 Theorem C13_source_retry_limit : forall (cf : conf) (m : msg),
@@ -314,11 +314,34 @@ Theorem C13_source_retry_limit : forall (cf : conf) (m : msg),
   src_enc_check_retry cf m = ((if c_retry_attempts <? m_retry m then e_socket else 0), m).
 Proof. exact (fun cf m => conj (dec_check_retry_is_source cf m) (enc_check_retry_is_source cf m)). Qed.
 Print Assumptions C13_source_retry_limit.
-Theorem C13_source_retry_exemption : forall (cf : conf) (ins en : Z) (m : msg),
-  src_dec_validate_replay cf ins en m =
+Theorem C13_source_retry_exemption : forall (cf : conf) (ins en c : Z) (m : msg),
+  src_dec_validate_replay cf ins en c m =
   ((if (ins =? 0)%Z then 0
     else if (ins >? 0)%Z
          then (if cf_socket_retry cf && (0 <? m_retry m) && (m_retry m <=? c_retry_attempts) then 0 else e_cred_replayed)
-    else if (en =? 12)%Z then e_no_memory else e_snafu), m).
+    else if (en =? 12)%Z then e_no_memory else e_snafu), m, (if (ins =? 0)%Z then 1 else c)%Z).
 Proof. exact dec_validate_replay_is_source. Qed.
 Print Assumptions C13_source_retry_exemption.
+
+(* ---- roll-back after the repair of dec_process_msg (take back only the entry this decode added) ---- *)
+(* an attempt whose reply munged could not send leaves the cache exactly as it found it - every cache, every attempt
+   number 1.., every credential: it gives back exactly the record this request added, nothing else (C13_unsent_reply_
+   keeps_credential is the case "attempt 1 inserted the record") *)
+Theorem C13_unsent_reply_restores_cache :
+  forall (hmac : N -> bytes -> bytes -> bytes) (sha1 : bytes -> bytes) (blk_dec : N -> bytes -> bytes -> bytes)
+         (zdecomp : N -> bytes -> N -> option bytes) cf mem cred pu pg now (rs : CredModel.rstate) i,
+  fst (dec_attempt hmac sha1 blk_dec zdecomp cf mem cred pu pg now rs i (Some RspSendFailed)) = rs.
+Proof. exact unsent_reply_restores_cache. Qed.
+Print Assumptions C13_unsent_reply_restores_cache.
+(* a retry (attempt 2..5) that finds the record of its own earlier attempt: it is served, and the record STAYS whatever
+   happens to this attempt's reply (clean, lost, or unsendable) - the earlier attempt's reply was sent as far as the
+   daemon can tell, so the credential stays consumed *)
+Theorem C13_retry_on_own_record_keeps_it :
+  forall (hmac : N -> bytes -> bytes -> bytes) (sha1 : bytes -> bytes) (blk_dec : N -> bytes -> bytes -> bytes)
+         (zdecomp : N -> bytes -> N -> option bytes) cf mem cred pu pg now (rs : CredModel.rstate) i f m0 k,
+  cf_socket_retry cf = true ->
+  dec_pre hmac sha1 blk_dec zdecomp cf mem (req cred 0) pu pg now = inr (m0, k) -> (2 <= i <= 5)%nat ->
+  dec_attempt hmac sha1 blk_dec zdecomp cf mem cred pu pg now (k :: rs) i f =
+  (k :: rs, match f with None => Some (rt (N.of_nat (i - 1)) m0) | Some _ => None end).
+Proof. exact retry_on_own_record_keeps_it. Qed.
+Print Assumptions C13_retry_on_own_record_keeps_it.
